@@ -1361,11 +1361,16 @@ func (m *mergeQuery) Select(t iterator) NodeNavigator {
 			}
 			m.Child.Evaluate(t)
 			root = root.Copy()
+			// The merged step is evaluated with the input node as context node;
+			// afterwards the context cursor is put back for whatever follows in
+			// the same context (the other operand of a comparison ...).
+			saved := t.Current().Copy()
 			t.Current().MoveTo(root)
 			var list []NodeNavigator
 			for node := m.Child.Select(t); node != nil; node = m.Child.Select(t) {
 				list = append(list, node.Copy())
 			}
+			t.Current().MoveTo(saved)
 			i := 0
 			m.iterator = func() NodeNavigator {
 				if i >= len(list) {
